@@ -321,6 +321,9 @@ def w4(model: Model, rep: Report):
         rep.check(ok_rows, "C18.W4", "construct_visual_description[rows]", f.loc, found=show(rows) if rows else None, required="reorder_indices(unique occupied channel ids, requested order)", what="rows are not the occupied channels in the requested order", detail="rows")
         lm = d.get("channel_label_map")
         src = lm[3] if lm is not None and lm[0] == "var" else lm
+        if src is not None and src[0] == "dictcomp":
+            from ..extreme import fuse_comprehensions
+            src = fuse_comprehensions(src)
         if src is not None and src[0] not in ("dictcomp", "dict", "sym", "attr"):
             raise AnalysisError(f"construct_visual_description: the label map [{show(src)[:120]}] is not written as a dict comprehension over the rows; nothing decided")
         ok_lm = src is not None and src[0] == "dictcomp" and len(src[3]) == 1 and not src[3][0][1] and src[3][0][0] == ("call", "enumerate", (rows,), ())
@@ -380,7 +383,12 @@ def _answers_identity(t: Term) -> bool:
     if t == ("dict", ()):
         return True
     if t[0] == "dictcomp":
-        return t[1] == t[2] and t[1][0] == "bound"
+        if t[1] == t[2] and t[1][0] == "bound":
+            return True
+        # ``dict(zip(xs, xs))``: every key is its own value
+        if len(t[3]) == 1 and not t[3][0][1] and t[3][0][0][0] == "call" and t[3][0][0][1] == "zip" and len(t[3][0][0][2]) == 2 \
+                and t[3][0][0][2][0] == t[3][0][0][2][1] and t[1][0] == "item" and t[2][0] == "item" and t[1][1] == t[2][1] and {t[1][2], t[2][2]} == {0, 1}:
+            return True
     return False
 
 
